@@ -147,6 +147,8 @@ def run(ctx) -> None:
     # "always including the config file's own current_version line" - format independent
     from checks.c03 import self_pattern_rule
     self_pattern_rule(ctx, "R2")
+    from checks.c03 import section_scan_rule
+    section_scan_rule(ctx, "R3")
     # ... and the set of (file, pattern) pairs: every file a configured glob finds is a configured file, whatever its name
     from checks.c03 import canonical_keys_rule
     canonical_keys_rule(ctx, "R2")
